@@ -406,7 +406,7 @@ func scnRun(rec *evid.Rec, cfg scnCfg, faults map[int]sim.FaultKind) *scnResult 
 }
 
 func faultKinds() []sim.FaultKind {
-	return []sim.FaultKind{sim.FaultReject, sim.FaultRejectTyped, sim.FaultLostAnswer, sim.FaultCrashBefore, sim.FaultCrashAfter}
+	return []sim.FaultKind{sim.FaultReject, sim.FaultRejectTyped, sim.FaultLostAnswer, sim.FaultLostAnswerTyped, sim.FaultCrashBefore, sim.FaultCrashAfter}
 }
 
 // c11Judge compares a faulted run with the failure-free one.
